@@ -160,6 +160,11 @@ def run_unit(path, rlimit=None, seed=None, extra_args=()):
     else:
         res['status'] = 'undecided'
         res['reason'] = 'verus reported errors that could not be classified: ' + ' | '.join(raw[:5])
+    if res['status'] == 'ok' and u.soft_undecided:
+        res['status'] = 'undecided'
+        res['reason'] = ' | '.join(u.soft_undecided)
+    elif u.soft_undecided:
+        res['reason'] = (res['reason'] + ' | ' if res['reason'] else '') + ' | '.join(u.soft_undecided)
     # discount mustfail fns from the error count
     res['errors'] = max(0, res['errors'] - len(set(mf_ok)))
     return res
